@@ -170,6 +170,13 @@ def globals_rule(ctx):
                         ctx.instance('C10.R4', (q, ast.unparse(t)))
                         ctx.report('C10.R4', q, '%s = ...' % ast.unparse(t), 'class-level state is written at run time',
                                    line=node.lineno)
+    # module-level / class-level containers that some function may change at run time survive every reset
+    for (mod, name), (kind, q, line, what) in sorted(census.mutable_tables(m).items()):
+        ctx.instance('C10.R4', ('table', mod, name))
+        ctx.report('C10.R4', q, 'module-level table %s.%s %s (%s)' % (mod, name, 'is changed' if kind == 'write' else 'escapes', what),
+                   'a container defined at module or class level is %s at run time: it is shared by every plugin instance and '
+                   'print and no reset re-initialises it, so what a print does can depend on the prints before it'
+                   % ('written' if kind == 'write' else 'handed to code that may write it'), line=line)
     ctx.instance('C10.R4', ('functions scanned', m.nfuncs))
 
 
